@@ -20,6 +20,7 @@ def warm():
     ic.mc(wd, "A3", "id")
     ic.gen(wd, "A3", "id")
     ic.gen(wd, "A4o", "id")
+    ic.gen(wd, "P5", "id")
 
 
 def inputs(wd, tier):
@@ -34,7 +35,16 @@ def inputs(wd, tier):
     qrng = random.Random(5 + seed())
     for it in r5items:  # 180 queries per 5-node graph: keep a seeded slice
         it["qs"] = qrng.sample(it["qs"], 30 if tier == "quick" else 90)
-    return items + r5items, [g3, g4, r5]
+    # every query of the two-chain family P5 on which ID passes through line 7 twice on one path (ID.tla L7Depth >= 2),
+    # and a seeded sample of its other queries
+    p5 = ic.gen(wd, "P5", "id")[0]
+    p5items = []
+    for it in ic.with_gids(p5["items"], "P5-"):
+        deep = [q for q in it["qs"] if q[4] >= 2]
+        rest = [q for q in it["qs"] if q[4] < 2]
+        qs = deep + qrng.sample(rest, 1 if tier == "quick" else 6)
+        p5items.append(dict(it, qs=qs))
+    return items + r5items + p5items, [g3, g4, r5, p5]
 
 
 def run(tier: str) -> int:
@@ -71,7 +81,8 @@ def run(tier: str) -> int:
         "rule": "one record = one call of identify_outcomes/identify on (G, X, Y); every estimand is evaluated by TLC on "
                 "all value assignments of generic SCMs (GF(32749)) and compared with P(Y|do X) by truncated factorisation; "
                 "non-trivial = distinct (G,X,Y) with a returned estimand on a graph with a bidirected edge; all 200 3-node "
-                "ADMGs x 12 queries exhaustively, seeded sample of the 4096 ordered 4-node ADMGs x 50 queries, seeded 5-node graphs",
+                "ADMGs x 12 queries exhaustively, seeded sample of the 4096 ordered 4-node ADMGs x 50 queries, seeded 5-node graphs, "
+                "every query of the 512-graph two-chain family P5 on which the reference ID applies line 7 twice on one path",
         "samples": [{"id": i, "x": by_id[i][1]["x"], "y": by_id[i][1]["y"], "graph": {k: by_id[i][0][k] for k in "ndb"},
                      "estimand": by_id[i][1]["out"].get("str")} for i in sample_ids],
         "exhaustive": False,
